@@ -137,6 +137,7 @@ type Conn struct {
 	readBuf          []byte
 	readErr          error
 	writeBuf         []byte
+	writeMsg         []byte // a ServerHello that continues in the next record
 	writeErr         error
 	retryCount       *atomic.Int32
 	readPassthrough  bool
@@ -466,8 +467,20 @@ func (c *Conn) inspectWrite(record []byte) error {
 	switch {
 	case recType == 23:
 		c.writePassthrough = true
-	case recType == 22 && msgType == 2: // Handshake / ServerHello
-		h, err := parseServerHello(c.writeBuf[5:])
+	case recType == 22 && (msgType == 2 || len(c.writeMsg) > 0): // Handshake / ServerHello
+		// The message may continue in the following records (RFC 8446,
+		// Section 5.1). The records are passed on as they come.
+		c.writeMsg = append(c.writeMsg, record[5:]...)
+		if len(c.writeMsg) < 4 {
+			return nil
+		}
+		if length := int(c.writeMsg[1])<<16 | int(c.writeMsg[2])<<8 | int(c.writeMsg[3]); length > maxHandshakeLength {
+			return fmt.Errorf("%w: handshake message length %d > %d", ErrDecodeError, length, maxHandshakeLength)
+		} else if len(c.writeMsg)-4 < length {
+			return nil
+		}
+		h, err := parseServerHello(c.writeMsg)
+		c.writeMsg = nil
 		if err != nil {
 			return fmt.Errorf("%w: parseServerHello: %v\n", ErrDecodeError, err)
 		}
